@@ -90,6 +90,13 @@ pub enum Op {
         v: i32,
         w: i32,
     },
+    /// `\scrollmode\global\divide\count<i> by 0 \errorstopmode `: a prefixed assignment that fails
+    /// with a recoverable error (recovered, because the mode is not errorstop for its duration).
+    /// Nothing is assigned, and the `\global` must not stay pending.
+    FailedGlobalArith {
+        idx: u16,
+        mul: bool,
+    },
     /// `[\global]\<kind><to>=\<kind><from> `: one register assigned from another of its kind.
     CopyReg {
         g: bool,
